@@ -3,6 +3,7 @@ package main
 // Contract-mode evaluation: clause expressions (CExpr), name resolution, spec functions, builtins.
 
 import (
+	"regexp"
 	"fmt"
 	"go/ast"
 	"go/token"
@@ -283,6 +284,8 @@ func (ex *Exec) packArgs(p *Path, sig *types.Signature, vals []Value, ellipsis b
 	return args
 }
 
+var boundVarRe = regexp.MustCompile(`\|[^|]*\?\d+\|`)
+
 // callSpec expands a spec function.
 func (ex *Exec) callSpec(p *Path, name string, call *ast.CallExpr) Value {
 	sf := ex.w.Specs[name]
@@ -327,6 +330,13 @@ func (ex *Exec) callSpec(p *Path, name string, call *ast.CallExpr) Value {
 	p.names = map[string]Value{}
 	p.entry = map[string]Value{}
 	for i, b := range sf.Params {
+		// a large closed argument is named once instead of being copied at every use in the body (nested spec
+		// functions otherwise grow exponentially); arguments that mention a bound variable cannot be named outside
+		if len(args[i].T) > 160 && !boundVarRe.MatchString(args[i].T) {
+			c := ex.c.Fresh("sa:"+b.Name, ex.c.SortOf(args[i].Ty))
+			p.Assume(eq(c, args[i].T))
+			args[i] = Value{c, args[i].Ty}
+		}
 		p.names[b.Name] = args[i]
 	}
 	ex.pkg = nil
@@ -477,6 +487,17 @@ func (ex *Exec) contractBuiltin(p *Path, name string, call *ast.CallExpr) ([]Val
 			ex.unsupp(call.Pos(), "%v", err)
 		}
 		return one(ex.assertedValue(arg(0), t))
+	case "jsonDecodes", "jsonDecoded":
+		// jsonDecodes(b, T): would json.Unmarshal(b, &t) with t of type T succeed; jsonDecoded(b, T): what it stores then
+		t, err := ex.w.ResolveType(call.Args[1], ex.pkg)
+		if err != nil {
+			ex.unsupp(call.Pos(), "%v", err)
+		}
+		okT, decT := ex.jsonDecodeTerms(arg(0).T, t)
+		if name == "jsonDecodes" {
+			return one(Value{okT, boolT})
+		}
+		return one(Value{decT, t})
 	case "errmsg":
 		return one(Value{ex.errMsg(arg(0)), strT})
 	case "isNil":
@@ -500,6 +521,13 @@ func (ex *Exec) contractBuiltin(p *Path, name string, call *ast.CallExpr) ([]Val
 		kk := ex.convert(p, k, mt.Key(), call.Pos())
 		vv := ex.convert(p, v, mt.Elem(), call.Pos())
 		return one(Value{app(mk, "(store "+app(dom, mm.T)+" "+kk.T+" true)", "(store "+app(val, mm.T)+" "+kk.T+" "+vv.T+")", "false"), mm.Ty})
+	case "mapDel":
+		// mapDel(m, k): the map after delete(m, k) (same term shape as the builtin's model)
+		mm, k := arg(0), arg(1)
+		mt := mm.Ty.Underlying().(*types.Map)
+		mk, dom, val, isnil := ex.c.mapParts(mm.Ty)
+		kk := ex.convert(p, k, mt.Key(), call.Pos())
+		return one(Value{app(mk, "(store "+app(dom, mm.T)+" "+kk.T+" false)", app(val, mm.T), app(isnil, mm.T)), mm.Ty})
 	case "charAt":
 		return one(Value{"(str.to_code (str.at " + arg(0).T + " " + arg(1).T + "))", intT})
 	case "result0", "result1", "result2":
